@@ -43,6 +43,10 @@ func continueTag(string) (func(io.Writer, render.Context) error, error) {
 	}, nil
 }
 
+// cycleCounters holds the positions of the cycle groups of one loop. The type is private to this package, so
+// that a binding called forloop which merely looks like a loop record is not taken for one (and written to).
+type cycleCounters map[string]int
+
 func cycleTag(args string) (func(io.Writer, render.Context) error, error) {
 	stmt, err := expressions.ParseStatement(expressions.CycleStatementSelector, args)
 	if err != nil {
@@ -60,7 +64,7 @@ func cycleTag(args string) (func(io.Writer, render.Context) error, error) {
 		if !ok {
 			return ctx.Errorf("cycle must be within a forloop")
 		}
-		cycleMap, ok := loopRec[".cycles"].(map[string]int)
+		cycleMap, ok := loopRec[".cycles"].(cycleCounters)
 		if !ok {
 			return ctx.Errorf("cycle must be within a forloop")
 		}
@@ -127,7 +131,7 @@ func (loop loopRenderer) render(iter iterable, w io.Writer, ctx render.Context) 
 		ctx.Set(forloopVarName, index)
 		ctx.Set(loop.Variable, forloop)
 	}(ctx.Get(forloopVarName), ctx.Get(loop.Variable))
-	cycleMap := map[string]int{}
+	cycleMap := cycleCounters{}
 loop:
 	for i, l := 0, iter.Len(); i < l; i++ {
 		verifhook.Step(verifhook.SiteLoopIter)
